@@ -67,6 +67,9 @@ pub struct Config {
     pub start_height: u64,
     /// token ids that exist in the name table although nobody minted them
     pub extra_token_ids: Vec<String>,
+    /// also mint, in every collection, tokens whose ids differ from an existing id of ANOTHER user only by
+    /// surrounding white space or letter case (`"t000 "`, `" t001"`, `"T000"`): distinct tokens for cw721
+    pub odd_token_ids: bool,
 }
 
 impl Default for Config {
@@ -88,6 +91,7 @@ impl Default for Config {
             start_time_ns: 1_700_000_000_000_000_000 + 123_456_789,
             start_height: 1000,
             extra_token_ids: vec![],
+            odd_token_ids: false,
         }
     }
 }
@@ -448,6 +452,21 @@ impl Sim {
                     app.execute_contract(deplo.clone(), addr.clone(), &mint, &[]).expect("mint");
                     ids_here.push(tid);
                 }
+            }
+            if config.odd_token_ids && users.len() >= 2 && !ids_here.is_empty() {
+                let n = config.nfts_per_user_per_collection.max(1);
+                // ids_here[0] belongs to users[0], ids_here[n] to users[1]
+                let twins = vec![
+                    (format!("{} ", ids_here[0]), users[1].clone()),
+                    (format!(" {}", ids_here[n.min(ids_here.len() - 1)]), users[0].clone()),
+                    (ids_here[0].to_uppercase(), users[users.len() - 1].clone()),
+                ];
+                for (tid, owner) in twins {
+                    let mint = cw721_base::ExecuteMsg::<cw721_base::Extension, Empty>::Mint(cw721_base::MintMsg { token_id: tid.clone(), owner, token_uri: None, extension: None });
+                    app.execute_contract(deplo.clone(), addr.clone(), &mint, &[]).expect("mint twin");
+                    ids_here.push(tid);
+                }
+                ids_here.sort_by(|a, b| a.as_bytes().cmp(b.as_bytes()));
             }
             cw721s.push(addr.to_string());
             minted.push(ids_here);
